@@ -207,7 +207,7 @@ var specC17Model = Register(&Spec[ClDoc]{
 })
 
 func TestC17_Model(t *testing.T) {
-	specC17Model.Run(t, genClDoc, 3000, 40000)
+	specC17Model.Run(t, genClDoc, 10000, 60000)
 }
 
 // ------------------------------------------------------------------ every prefix
@@ -365,7 +365,7 @@ var specC17Malformed = Register(&Spec[ClBad]{
 })
 
 func TestC17_Malformed(t *testing.T) {
-	specC17Malformed.Run(t, genClBad, 4000, 40000)
+	specC17Malformed.Run(t, genClBad, 10000, 60000)
 }
 
 // ------------------------------------------------------------------ generator soundness vs dpkg-parsechangelog
